@@ -1257,6 +1257,38 @@ def r03_7(ctx, counts) -> RuleResult:
                                  f'is not dominated by a divisor != 0 test and no enclosing '
                                  f'handler catches {", ".join(missing)}: a zero decimal divisor '
                                  f'escapes as a bare decimal/arithmetic error'))
+    # decimal.InvalidOperation has two causes: a zero divisor (x % 0, 0 // 0) and a quotient
+    # with more digits than the context precision (10**41 % Decimal('1.5')). A handler that
+    # covers it may answer "division by zero" only where the divisor is known to be zero.
+    for f, syms in sorted(funcs.items(), key=lambda kv: kv[0].key):
+        cfg = CFG(f.node, calls_may_raise)
+        facts = branch_facts(cfg)
+        for h in [x for x in ast.walk(f.node) if isinstance(x, ast.ExceptHandler)]:
+            names = {nm.split('.')[-1] for nm in handler_names(model, f.module, h)}
+            if not names & {'InvalidOperation', 'DecimalException', 'ArithmeticError',
+                            'Exception'}:
+                continue
+            for r in [x for st in h.body for x in ast.walk(st) if isinstance(x, ast.Raise)]:
+                if r.exc is None or 'FOAR0001' not in stmt_text(r.exc):
+                    continue
+                conditional = any(isinstance(x, ast.IfExp) and '== 0' in stmt_text(x.test)
+                                  for x in ast.walk(r.exc))
+                holder = next((nd for nd in cfg.nodes if nd.ast is r), None)
+                if holder is not None and any(fa.startswith('+') and fa.endswith(' == 0')
+                                              for fa in facts[holder.id]):
+                    conditional = True
+                res.instances.append(f'{f.key} [{"/".join(sorted(syms))}]: handler of '
+                                     f'{sorted(names)} raises FOAR0001 only for a zero divisor='
+                                     f'{conditional}')
+                if conditional:
+                    res.ok()
+                else:
+                    res.fail(finding('R03.7', f, r, 'FOAR0001 for every InvalidOperation',
+                                     f'the handler of {sorted(names)} in the '
+                                     f'{"/".join(sorted(syms))} operator answers FOAR0001 '
+                                     f'(division by zero) for every decimal.InvalidOperation: '
+                                     f'10**41 mod 1.5 has a non-zero divisor (the sibling idiv '
+                                     f'tests `op2 == 0`)'))
     counts['division_ops'] = n_ops
     if n_ops < 3:
         raise AnalysisError(f'only {n_ops} division operations located in div/idiv/mod')
@@ -1427,7 +1459,8 @@ def r03_9(ctx, counts) -> RuleResult:
     model: Model = ctx.model
     res = RuleResult(
         'R03.9', 'OVERFLOW-GUARD',
-        'In the evaluate methods of the math:* functions and of div/idiv/mod, every operation '
+        'In the evaluate methods of the math:* functions, of div/idiv/mod and of the range '
+        'operator `to` (list(range(a, b)) needs a length that fits a C ssize_t), every operation '
         'on an evaluated operand that converts to a C double or can exceed its range — '
         'math.f(x) other than log/log10 (which take big ints), float(x), x ** y, and /, //, % — '
         'is inside a try with a handler for OverflowError (or ArithmeticError), or its operand '
@@ -1441,7 +1474,7 @@ def r03_9(ctx, counts) -> RuleResult:
         fam = None
         if isinstance(ns, str) and ns.endswith('/xpath-functions/math'):
             fam = f'math:{rec.symbol}'
-        elif rec.symbol in ('div', 'idiv', 'mod'):
+        elif rec.symbol in ('div', 'idiv', 'mod', 'to'):
             fam = rec.symbol
         if fam:
             ref = rec.method('evaluate')
@@ -1478,6 +1511,12 @@ def r03_9(ctx, counts) -> RuleResult:
                 elif d == 'float' and n.args and mentions(n.args[0]) and \
                         not isinstance(n.args[0], ast.Constant):
                     ops.append((n, 'float()', mentions(n.args[0])))
+                elif d.split('.')[-1] in ('list', 'xlist', 'tuple', 'len') and n.args and \
+                        isinstance(n.args[0], ast.Call) and dotted(n.args[0].func) == 'range' \
+                        and mentions(n.args[0]):
+                    # a range over unbounded xs:integer operands materialised as a sequence:
+                    # its length must fit a C ssize_t
+                    ops.append((n, 'materialised range', mentions(n.args[0])))
             elif isinstance(n, ast.BinOp) and isinstance(
                     n.op, (ast.Pow, ast.Div, ast.FloorDiv, ast.Mod)) and mentions(n) and not (
                     not isinstance(n.op, ast.Pow) and isinstance(n.right, ast.Constant)
